@@ -142,9 +142,14 @@ func (r *Report) Violation(c Case, recheck func() bool) {
 	}
 	known := r.knownKeys[c.Key]
 	if r.unreproKeys[c.Key] >= 3 {
-		// this key failed to reproduce 3 times already: count, do not re-execute again
+		// this key failed to reproduce 3 times already: count it under its nondeterministic key, do not re-execute again
 		r.unrepro++
 		r.unreproKeys[c.Key]++
+		r.violKeys["nondeterministic/"+c.Key]++
+		r.nViol++
+		if r.nViol > 2000 {
+			r.stop.Store(true)
+		}
 		r.mu.Unlock()
 		return
 	}
@@ -161,17 +166,22 @@ func (r *Report) Violation(c Case, recheck func() bool) {
 	if recheck != nil {
 		for i := 0; i < 5; i++ {
 			if !recheck() {
+				// The discrepancy was observed on a real execution but re-executing the same case from scratch
+				// conforms: the result of a function that must be determined by its arguments alone depends on
+				// call history or schedule. That is reported (under its own key), not dropped: every engine
+				// re-executes deterministically, so the nondeterminism is in the code under test.
 				r.mu.Lock()
 				r.unrepro++
 				r.unreproKeys[c.Key]++
-				if len(r.Notes) < 100 {
-					r.Notes = append(r.Notes, "unreproduced (not reported): "+c.Key+" "+c.Observed)
-				}
 				r.mu.Unlock()
-				return
+				c.Observed += fmt.Sprintf(" [observed once; re-execution %d of the same case from scratch conformed: the result depends on call history or schedule]", i+1)
+				c.Key = "nondeterministic/" + c.Key
+				recheck = nil
+				break
 			}
 		}
 	}
+	known = r.knownKeys[c.Key]
 	c.Property = r.Prop
 	r.mu.Lock()
 	if !known {
